@@ -1,5 +1,5 @@
 (* C02 correspondence: what an echoing backend saw and what the user got, against Model/HttpRewrite.v. *)
-From FRP Require Export Corr.Common Model.HttpRewrite.
+From FRP Require Export Corr.Common Model.HttpRewrite Model.HttpAdmit gen.GenVhostTransport.
 Open Scope Z_scope.
 
 Fixpoint c02_list_eqb (a b : list bytes) : bool :=
@@ -58,6 +58,10 @@ Inductive case :=
 (* a sequence of requests on one connection that ends in a client plugin (through frps): compression flag of
    the proxy, and for every request whether it was answered *)
 | CKeep (compressed : bool) (answered : list bool)
+(* k exchanges of one route held open at once (kind 1: upgraded connections, 2: backend not answering yet),
+   [held] of them established; then a probe on the same route and one on another route: status and
+   milliseconds to the complete answer, and the bound *)
+| CAdmit (kind k held : Z) (same_status same_ms other_status other_ms bound_ms : Z)
 (* a request through frps (route rc) and then a plugin of frpc *)
 | CChain (rc : hr_route) (p : hr_plugin) (o : hr_popts) (plugin_client_ip : option bytes)
          (uq : hr_req) (reenc : bytes) (seen : c02_seen) (resp got : hr_resp).
@@ -164,6 +168,20 @@ Definition check_case (c : case) : Z :=
       else if negb (elapsed <=? bound) then 33
       else if negb other_ok then 34
       else 0
+  | CAdmit kind k held same_status same_ms other_status other_ms bound =>
+      (* the model with today's transport literal: k requests of one route, then the two probes *)
+      match ht_max_conns gen_vhost_transport_fields with
+      | None => 60
+      | Some max =>
+          let key := hr_b "route" in
+          let outs := ht_run max [] (repeat (HtRequest key) (Z.to_nat k) ++ [HtRequest key; HtRequest (hr_b "other")]) in
+          let queued := existsb ht_is_queued outs in
+          if negb (held =? k) then (if queued then 0 else 61)        (* some of the k never reached the backend *)
+          else if queued then 62                                     (* model says waiting, all were admitted *)
+          else if negb ((same_status =? 200) && (same_ms <=? bound)) then 63
+          else if negb ((other_status =? 200) && (other_ms <=? bound)) then 64
+          else 0
+      end
   | CKeep compressed answered =>
       (* the handler (a reverse proxy round trip) outlives the request body: background read pending *)
       let pred := hk_serve (hk_fresh compressed) (map (fun _ => true) answered) in
@@ -222,3 +240,4 @@ Definition is_chain (c : case) : bool := match c with CChain _ _ _ _ _ _ _ _ _ =
 Definition is_tunnel (k : Z) (c : case) : bool := match c with CTunnel k' _ _ _ _ _ => k' =? k | _ => false end.
 Definition is_keep (comp : bool) (c : case) : bool := match c with CKeep k _ => Bool.eqb k comp | _ => false end.
 Definition keep_lost (c : case) : bool := match c with CKeep _ a => existsb negb a | _ => false end.
+Definition is_admit (kind : Z) (c : case) : bool := match c with CAdmit k' _ _ _ _ _ _ _ => k' =? kind | _ => false end.
